@@ -21,7 +21,7 @@ ID = "C19"
 LEVEL = "model_checking"
 ENGINE = "E2 explicit-state exploration of operation histories on live objects"
 RULE = (
-    "5 charts x every sequence of <= D read-only operations out of the operation alphabet (subscripting by all 10 instruments, "
+    "6 charts (one with body lines out of tick order) x every sequence of <= D read-only operations out of the operation alphabet (subscripting by all 10 instruments, "
     "map reads, notes_per_second in all forms on present/absent/note-less tracks incl. failing ones, tick-to-time queries valid "
     "and invalid, str/repr/==/hash, derived attributes, rejected attribute assignment); after every operation the public "
     "observation and twin equality are compared with the initial ones; distinct = distinct (chart, sequence); non-trivial = all"
@@ -122,6 +122,8 @@ CHARTS = {
     "one-track": mk(res=4, sync=SYNC, events=EVENTS, tracks={"ExpertSingle": ["0 = N 0 0", "5 = N 1 3", "5 = N 2 7", "12 = N 7 0", "30 = N 3 2"]}),
     "several": mk(res=4, sync=SYNC, events=EVENTS, tracks=[("ExpertSingle", ["0 = N 0 0", "9 = N 1 4"]), ("EasySingle", ["2 = N 2 0"]), ("ExpertDoubleBass", ["3 = N 3 1", "3 = N 4 1"]), ("HardKeyboard", ["8 = E solo"])]),
     "noteless": mk(res=4, sync=SYNC, events=EVENTS, tracks=[("HardDrums", ["3 = S 2 4", "5 = E solo"]), ("ExpertSingle", ["1 = N 0 0", "2 = N 1 0"])]),
+    # accepted although its lines are not in tick order (every out-of-order tick stays in the current tempo region)
+    "unsorted": mk(res=4, sync=["0 = TS 4", "0 = B 120000", "10 = B 60000", "25 = TS 3", "12 = TS 5"], events=['11 = E "section b"', '4 = E "lyric x"', '30 = E "lyric z"', '12 = E "lyric y"', '20 = E "t"', '11 = E "u"'], tracks=[("ExpertSingle", ["0 = N 0 0", "30 = N 1 2", "12 = N 2 0", "20 = N 3 1", "20 = S 2 5", "11 = S 2 1", "28 = E b", "13 = E a"]), ("HardDrums", ["14 = N 1 0", "11 = N 2 0"])]),
     "star-power": mk(res=4, sync=SYNC, events=EVENTS, tracks={"ExpertSingle": ["0 = S 2 4", "0 = N 0 0", "3 = N 1 2", "4 = N 2 0", "8 = S 2 0", "8 = N 3 0", "9 = S 2 9", "10 = N 0 0", "10 = N 6 0"]}),
 }
 
@@ -223,7 +225,7 @@ def run_shard(shard, ctx):
     c0 = impl.parse(text)
     s0 = fingerprint(c0, twin)
     if not (s0[1] and s0[2]):
-        ctx.violation("twin-unequal", dict(chart=cname, ops=[]), "two parses of the same text are not equal (chart %s)" % cname)
+        ctx.violation("twin-unequal", dict(chart=cname, ops=[]), "two parses of the same text are not equal (chart %s)" % cname, script=SCRIPT.format(observe_src=impl.OBSERVE_SRC, prelude=PRELUDE, text=text, ops=[]).replace("s0 = state()", "s0 = state()\nif not (s0[1] and s0[2]):\n    print('VIOLATED: two parses of the same text are not equal'); sys.exit(1)"))
         return
     states = {hashlib.sha1(json.dumps(s0, sort_keys=True, default=str).encode()).hexdigest()}
     for first in OPNAMES[lo:hi]:
@@ -250,5 +252,7 @@ def replay(case):
     text = CHARTS[case["chart"]]
     twin = impl.parse(text)
     s0 = fingerprint(impl.parse(text), twin)
+    if not (s0[1] and s0[2]):
+        return [dict(key="twin-unequal", msg="two parses of the same text are not equal", case=case)]
     run_seq(ctx, case["chart"], text, tuple(case["ops"]), twin, s0, set())
     return ctx.violations
